@@ -9,7 +9,7 @@ from __future__ import annotations
 
 from typing import Any, Dict, List
 
-from .common import call, same, is_symbolic, PathAbort, mk_array
+from .common import call, same, is_symbolic, PathAbort, mk_array, replay_tiers
 
 PROP = "C16"
 SYMS = ["R", "C", "L", "K", "Tlm"]
@@ -344,7 +344,7 @@ OUTSIDE = ["circuits with more elements than the bound (identifier arithmetic is
 
 def replay(obligation: str, witness):
     from sx.concrete import run_concrete
-    for tier in ("thorough", "quick"):
+    for tier in replay_tiers():
         for ob in obligations(tier):
             if ob.name == obligation:
                 reproduced, msg, _ = run_concrete(ob.harness, witness)
